@@ -64,7 +64,10 @@ def build(prog, reps=None, top=None):
         registry.set_registry_at('reps', reps['registry'])
         circuit = DeclarativeCircuit(repetition_strategy=RegistryRepetitionStrategy(registry=registry, registry_key='reps'))
     else:
-        circuit = DeclarativeCircuit(repetition_strategy=FixedRepetitionStrategy(reps))
+        # the count as a Python int or as a numpy integer (a sweep over np.arange): a deterministic choice
+        import numpy as np
+        n = np.int64(reps) if (reps + len(prog)) % 2 == 0 else reps
+        circuit = DeclarativeCircuit(repetition_strategy=FixedRepetitionStrategy(n))
     top = top or circuit
     added = []
     for cmd in prog:
